@@ -33,8 +33,11 @@ ReadLog    == /\ pc = "read" /\ Same /\ (IF ReadFails THEN Die ELSE pc' = "clien
 MakeClient == /\ pc = "client" /\ Same /\ (IF tsm = "absent" THEN Die ELSE pc' = "extend" /\ UNCHANGED <<exit, said>>)
 \* with a TSM the library decides (Rtmr.tla): refused for an empty log or an index outside 0..3 -- the tool itself never looks at -rtmr,
 \* although its help text says "Must be 2 or 3"
+LogEmpty(i) == i \in {"stdinEmpty", "fileEmpty"}
+IndexValue(x) == CASE x \in {"default", "2"} -> 2 [] x = "3" -> 3 [] x = "0" -> 0 [] x = "4" -> 4 [] x = "minus1" -> -1
+LibraryRefuses(i, x) == LogEmpty(i) \/ x \in {"4", "minus1"}            \* SystemAbstraction checks this against Rtmr!Valid
 Extend     == /\ pc = "extend" /\ Same
-              /\ IF in \in {"stdinEmpty", "fileEmpty"} \/ index \in {"4", "minus1"} THEN Die ELSE exit' = 0 /\ pc' = "done" /\ said' = said
+              /\ IF LibraryRefuses(in, index) THEN Die ELSE exit' = 0 /\ pc' = "done" /\ said' = said
 Next == ParseFlags \/ ReadLog \/ MakeClient \/ Extend
 Spec == Init /\ [][Next]_vars
 
